@@ -5,6 +5,7 @@ import RdVerif.Model.Nuclide
 import RdVerif.Model.Entry
 import RdVerif.Model.Interval
 import RdVerif.Model.Fractions
+import RdVerif.Model.Units
 import RdVerif.Gen.Icrp107.Data
 
 namespace RdVerif.Driver
@@ -76,6 +77,8 @@ def dsByName : String → Option Dataset
   | "icrp107" => some Gen.icrp107
   | _ => none
 
+def decStr (t : String) : Option String := (decCodes t).map unS
+
 def showNames (l : List (List Ch)) : String := " ".intercalate ((l.map encCodes))
 
 def decKey : List String → Option Key
@@ -89,6 +92,31 @@ def handle (st : State) (req : List String) : State × String :=
   | "fracs" :: xs =>
     match xs.mapM decRat with
     | some l => (st, "ok " ++ " ".intercalate ((fracs l).map encRat))
+    | none => (st, "bad-request")
+  | ["tonum", cls, u, x, lam, mass] =>
+    match decStr u, decRat x, decRat lam, decRat mass with
+    | some u, some x, some lam, some mass =>
+      let (T, av) := if cls == "S" then (tablesS, Gen.avogadroSympy) else (tablesF, Gen.avogadroFloatCls)
+      (st, showPy encRat (toNumber T av u x lam mass))
+    | _, _, _, _ => (st, "bad-request")
+  | ["read", cls, kind, u, n, lam, mass] =>
+    match decStr u, decRat n, decRat lam, decRat mass with
+    | some u, some n, some lam, some mass =>
+      let (T, av) := if cls == "S" then (tablesS, Gen.avogadroSympy) else (tablesF, Gen.avogadroFloatCls)
+      let r := if kind == "activity" then readActivity T u n lam
+               else if kind == "mass" then readMass T av u n mass
+               else readMoles T av u n
+      (st, showPy encRat r)
+    | _, _, _, _ => (st, "bad-request")
+  | ["timeconv", cls, x, ufrom, uto, year] =>
+    match decRat x, decStr ufrom, decStr uto, decRat year with
+    | some x, some a, some b, some y =>
+      (st, showPy encRat (timeConv (if cls == "S" then tablesS else tablesF) x a b y))
+    | _, _, _, _ => (st, "bad-request")
+  | ["kind", cls, u] =>
+    match decStr u with
+    | some u => (st, "ok " ++ (match kindOf (if cls == "S" then tablesS else tablesF) u with
+        | .num => "num" | .activity => "activity" | .moles => "moles" | .mass => "mass" | .unknown => "unknown"))
     | none => (st, "bad-request")
   | "set_names" :: ns =>
     match ns.mapM decCodes with
